@@ -72,6 +72,22 @@ def handle (c : Case) : Verdict :=
       let w := if kind == "to" then 8 else widthOf srcS
       let input : Option (List Nat) := if inS == "N" then none else some (parseUnits w inS)
       verdictOf kind srcS (c.get "dst") (c.get "route") (modeOf c) (c.nat "sub" 1 != 0) input obs
+  | "reval" =>
+      let srcS := c.get "src"; let dstS := c.get "dst"
+      let src := encOf srcS; let dst := encOf dstS
+      let xs := parseUnits (widthOf srcS) (c.get "in")
+      let first := if src == .utf8 && dst == .utf8 then stringSetUtf8 .substituteInvalid (some xs) else convert src dst .substituteInvalid true (some xs)
+      let ms := match first with
+        | .ok out => if Unicode.wellFormedByDesign dst out then "valid" else "invalid"
+        | _ => "first:" ++ (showO 8 first)
+      -- class of the recorded finding: a tolerated form that crosses encodings onto a value the target's validator refuses
+      let crossing := (Unicode.seg src xs).any fun sg => match sg with
+        | .good v _ => (dst == .utf16 && 0xD800 ≤ v && v < 0xE000) || (dst == .utf32 && v > 0x10FFFF)
+        | .bad _ => false
+      { corr := ms == obs, spec := obs == "valid", model := ms,
+        known := if crossing then (if dst == .utf16 then "C02-subst-utf16-encoded-surrogate" else "C02-subst-utf32-above-10FFFF") else "",
+        why := "output of substitute_invalid does not pass check_validity of the target encoding",
+        branch := s!"reval.{srcS}>{dstS}.{obs}", nontrivial := !xs.isEmpty }
   | "blk.conv" =>
       let kind := c.get "kind"; let srcS := c.get "src"; let dstS := c.get "dst"; let route := c.get "route"
       let inEnc := if kind == "to" then "u8" else srcS
